@@ -48,6 +48,7 @@ class World:
         self.stats = {"faults": {}, "probes": {}, "ops": {}, "transitions": set(), "checks_equal": 0, "checks": 0,
                       "rejected_loudly": 0, "bit_equal": 0}
         self.extra_oracles = []
+        self.on_edit_raised = []
         self.last_sol = {}
 
     # -- bookkeeping
@@ -117,9 +118,12 @@ class World:
                 if step.get("expect") == "reject":
                     self.fault("rejected_edit")
                     return "raised:" + type(e).__name__
-                st["rejected"] = st.get("rejected", 0) + 1
+                # an edit the model considers valid was rejected.  C13 allows a loud rejection, but what
+                # "the final specification" is after it cannot be decided (rockit may have applied part
+                # of the edit before raising), so this actor is no longer judged by the history oracle.
+                st["tainted"] = True
                 self.probe("edit_raised")
-                # an edit the model considers valid was rejected: remember it, the spec is unchanged
+                self.edit_raised(act, st, step, e)
                 return "raised:" + type(e).__name__
             if step.get("expect") == "reject":
                 raise Violation("ill-posed-edit-accepted", "%s was accepted: %s" % (k, json.dumps(step)))
@@ -330,7 +334,14 @@ class World:
             raise Violation("no-handoff", "solve returned without handing an NLP to the solver")
         return self.seam.records[-1]
 
+    def edit_raised(self, act, st, step, e):
+        for h in self.on_edit_raised:
+            h(self, act, st, step, e)
+
     def check(self, act, st, i):
+        if st.get("tainted"):
+            self.probe("check_skipped_tainted")
+            return
         self.stats["checks"] += 1
         fp0 = declared_fingerprint(act.ocp)
         err = None
@@ -619,6 +630,7 @@ def finish(w, steps, result):
     result["log_digest"] = hashlib.sha256(json.dumps(w.log, sort_keys=True, default=str).encode()).hexdigest()[:16]
     result["steps"] = steps
     result["nsteps"] = len(steps)
+    result["outcomes"] = [l[3] for l in w.log if isinstance(l[0], int)]
     st = w.stats
     result["stats"] = {
         "faults": dict(st["faults"], **{"fs_" + k: v for k, v in w.fs.fired.items() if v}),
@@ -657,6 +669,10 @@ def run_seed(prop, seed, base_cfg):
             live = sorted(w.actors.keys())
             a = G.pick(r, live)
             step = sched.next(a)
+            steps.append(step)
+            w.execute(len(steps) - 1, step)
+        while sched.queue:  # placed follow-ups of the last step
+            step = sched.queue.pop(0)
             steps.append(step)
             w.execute(len(steps) - 1, step)
         for a in sorted(w.actors.keys()):
